@@ -723,7 +723,8 @@ func VH_C07_tosvg_Q() {
 // x'^T Q x' = 1 and reads the new radii and rotation off Q's eigen-decomposition (trigonometric
 // and square roots: outside the claim, see the companion VH_C07_companion_arc_points).  Decided
 // here: the Q that reaches Eigen is the conic of the image ellipse - three image points
-// L R(phi)(rx c, ry s) satisfy it to 1e-6 - for a symbolic major radius (1 <= rx <= 1000, ry = 1),
+// L R(phi)(rx c, ry s) satisfy it to 1e-6 - for a symbolic major radius (1 <= rx <= 1000, ry = 1;
+// thorough tier: both radii symbolic, 1/64 <= ry <= rx <= min(1000 ry, 4096)),
 // two concrete non-zero rotations and every matrix of the table (rotation, anisotropic scale,
 // shear, reflection, near-singular).  Eigen is a recorder ("!": also in the interpreter's replay).
 var vhC07Conic Matrix
@@ -737,9 +738,13 @@ func vhC07EigenRec(m Matrix) (float64, float64, Point, Point) {
 
 func VH_C07_transform_arc_conic_Q() {
 	vStub("!(github.com/tdewolff/canvas.Matrix).Eigen", vhC07EigenRec)
-	rx := vhReal()
-	vAssume(1 <= rx && rx <= 1000)
-	ry := 1.0
+	rx, ry := vhReal(), 1.0
+	if vTier() == 1 { // thorough: both radii symbolic, ratio up to 1000
+		ry = vhReal()
+		vAssume(1.0/64 <= ry && ry <= rx && rx <= 1000*ry && rx <= 4096)
+	} else {
+		vAssume(1 <= rx && rx <= 1000)
+	}
 	phi := []float64{0.5, 2.0}[vChoose(0, 1)]
 	m := vhC07Mat(vChoose(0, vhC07NMat-1))
 	p := &Path{}
